@@ -27,11 +27,11 @@ import (
 
 func init() {
 	Register(&Property{
-		ID:   "C12",
-		Run:  runC12,
-		Rule: "runs = one (now, offset) configuration (incl. stalled rotation thread with now-offset up to 4500, restart with catch-up and traffic injected during the catch-up loop) x 40-200 hostile inputs (datagrams at window/acceptance edges, TCP sessions of 0-100 request bytes, HTTP requests over 9 routes x 5 methods x hostile queries and bodies incl. correctly signed structures with extreme fields) x peer fault policy (refused / timeout / 503 / served) x 0-6 idle or half-sent sync connections at Close(); after every input: no handler panic, a liveness probe is answered, every mutex is free; Close() must return within 2 x serverShutdownTime of simulated time; non-trivial = inputs of at least three families and one peer fault or idle connection; distinct = distinct decision signatures",
-		Real: []string{"all nine HTTP handlers incl. JSON decoding", "report handler", "sync handler incl. its connection reads", "forwarding to peers through http.Post", "NewGCAServer incl. catch-up loop", "Close()/thread group"},
-		Stub: []string{"kernel sockets and the three accept loops; net/http's own connection handling (which would swallow a handler panic) - handlers are called with a recover wrapper that is the panic witness", "NASA / WattTime services: unreachable (connection refused) in this flavour"},
+		ID:             "C12",
+		Run:            runC12,
+		Rule:           "runs = one (now, offset) configuration (incl. stalled rotation thread with now-offset up to 4500, restart with catch-up and traffic injected during the catch-up loop) x 40-200 hostile inputs (datagrams at window/acceptance edges, TCP sessions of 0-100 request bytes, HTTP requests over 9 routes x 5 methods x hostile queries and bodies incl. correctly signed structures with extreme fields) x peer fault policy (refused / timeout / 503 / served) x 0-6 idle or half-sent sync connections at Close(); after every input: no handler panic, a liveness probe is answered, every mutex is free; Close() must return within 2 x serverShutdownTime of simulated time; non-trivial = inputs of at least three families and one peer fault or idle connection; distinct = distinct decision signatures",
+		Real:           []string{"all nine HTTP handlers incl. JSON decoding", "report handler", "sync handler incl. its connection reads", "forwarding to peers through http.Post", "NewGCAServer incl. catch-up loop", "Close()/thread group"},
+		Stub:           []string{"kernel sockets and the three accept loops; net/http's own connection handling (which would swallow a handler panic) - handlers are called with a recover wrapper that is the panic witness", "NASA / WattTime services: unreachable (connection refused) in this flavour"},
 		Assumptions:    []string{"GCA-signed authorizations never assign one public key to two live ids", "responses of the external NASA / WattTime services are not part of the untrusted inputs the property lists"},
 		RequiredProbes: []string{"c12.stalled-late", "c12.catchup-traffic", "c12.idle-conn-at-close", "c12.peer-fault", "c12.http.hostile", "c12.tcp.partial", "c12.datagram.window-end", "c12.signed-extreme"},
 	})
